@@ -1462,6 +1462,18 @@ class DynGraph(nx.Graph):
         # @todo: implement (page 8, Latapy)
         pass
 
+    def clear(self):
+        """Remove all nodes and interactions, together with the interaction stream and the snapshots."""
+        nx.Graph.clear(self)
+        self.time_to_edge.clear()
+        self.snapshots.clear()
+
+    def clear_edges(self):
+        """Remove all interactions (nodes are kept), together with the interaction stream and the snapshots."""
+        nx.Graph.clear_edges(self)
+        self.time_to_edge.clear()
+        self.snapshots.clear()
+
     @not_implemented()
     def remove_edge(self, u, v):
         pass
